@@ -112,6 +112,7 @@ func (rr *RdbReplay) Replay(e *rdb.BinEntry) (err error) {
 		return nil
 	}
 
+	replace := false
 	params := []interface{}{e.Key, ttlms, e.DumpValue()}
 	if util.VersionGE(rr.RedisVersion, "5", util.VersionMajor) {
 		if e.IdleTime != 0 {
@@ -136,6 +137,7 @@ RESTORE:
 					log.Infof("replace key: %s", e.Key)
 				}
 				params = append(params, "REPLACE")
+				replace = true
 				goto RESTORE
 			case "ignore":
 				if rr.KeyExistsLog {
@@ -146,8 +148,21 @@ RESTORE:
 			}
 		} else if strings.Contains(err.Error(), "Bad data format") { // cluster.c:restoreCommand
 			log.Warn(err, " try to restoreBigRdbEntry")
+			// the target cannot load this serialization : replay the value as native commands,
+			// with what RESTORE [REPLACE] would have done for an existing key and for the expiry
+			if replace {
+				if _, err := common.Int64(rr.Client.Do("del", e.Key)); err != nil {
+					return fmt.Errorf("del exist key error : key(%s), error(%w)", e.Key, err)
+				}
+			}
 			if err := restoreBigRdbEntry(rr.Client, e); err != nil {
 				return err
+			}
+			if e.ExpireAt != 0 {
+				r, err := common.Int64(rr.Client.Do("pexpire", e.Key, ttlms))
+				if err != nil && r != 1 {
+					return fmt.Errorf("expire key error : key(%s), error(%w)", e.Key, err)
+				}
 			}
 		} else {
 			return fmt.Errorf("restore command error : key(%s), error(%w)", e.Key, err)
